@@ -24,6 +24,7 @@ type C14Case struct {
 
 // checkC14 returns false when the encoder rejected the input (trivial case).
 func checkC14(t TB, c C14Case) bool {
+	noteCase("C14", "checksum", c)
 	const P, K = "C14", "checksum"
 	s := string(c.Content)
 	var bc barcode.BarcodeIntCS
